@@ -6,6 +6,7 @@ import random
 import calls
 import gen
 import tlc
+from common import run_probes_parallel as _rpp
 from base import Ctx
 from common import SPEC, MachineryError, cps, text
 
@@ -107,6 +108,32 @@ def run(ctx: Ctx, clauses_exclude=C09_CLAUSES) -> dict:
     events = calls.execute(ctx, ops, "c08")
     mism = calls.validate(ctx, "TraceGenerate", events, env, "c08", per_shard=4000)
     calls.report(ctx, [m for m in mism if m[1] not in clauses_exclude], None, keyfn)
+    # one interpreter, every country after the other - forwards and backwards: whatever a country's
+    # result is, it must not depend on which other countries were generated before it
+    def one_pass(order):
+        r = random.Random(ctx.seed + 88)
+        ops1 = []
+        for row in order:
+            if not row["haspos"] or gen.row_classes(row) is None:
+                continue
+            wb, wr, wa = width(row, "bank_code"), width(row, "branch_code"), width(row, "account_code")
+            ops1.append({"op": "iban.generate", "cc": cps(gen.cc_of(row)),
+                         "bank": cps(field_chars(row, "bank_code", r, wb)),
+                         "branch": cps(field_chars(row, "branch_code", r, wr)) if wr else [],
+                         "acct": cps(field_chars(row, "account_code", r, max(wa - 1, 1)))})
+        return ops1
+    for tagp, order in (("fwd", table), ("bwd", list(reversed(table)))):
+        ops1 = one_pass(order)
+        outs = _rpp([ops1], ctx.wd, "c08" + tagp)[0]
+        ev1 = []
+        for op, o in zip(ops1, outs):
+            e = dict(op)
+            e["i"] = len(ev1)
+            e["out"] = o
+            ev1.append(e)
+        mism1 = calls.validate(ctx, "TraceGenerate", ev1, env, "c08" + tagp, per_shard=4000)
+        calls.report(ctx, [m for m in mism1 if m[1] not in clauses_exclude], None, keyfn)
+        events += ev1
     okn = sum(1 for e in events if e["out"]["k"] == "ok")
     classes = {}
     for e in events:
